@@ -4,7 +4,7 @@
    exercised by the harness (snapshots), not modelled. *)
 From Coq Require Import String List Permutation Sorted.
 From CMinx Require Import Base.Str Model.Path Model.Naming Model.Pipeline Model.Walk
-     Proofs.WalkFacts Proofs.WalkFacts2.
+     Spec.FsSpec Proofs.WalkFacts Proofs.WalkFacts2 Proofs.FsFacts.
 Import ListNotations.
 
 (* every component of every written / created path comes from the tree: a directory name, a
@@ -67,3 +67,44 @@ Theorem C18_files_sorted_within_dir :
     /\ StronglySorted (fun a b => str_leb a b = true) (toctree_files excl rel ch).
 Proof. exact files_sorted_within_dir. Qed.
 Print Assumptions C18_files_sorted_within_dir.
+
+(* file-system effect (Spec/FsSpec.v: a file system below the output directory as a function from
+   paths to what is there; apply_run executes the actions): a path no action names keeps its
+   content -- nothing is deleted or truncated, unrelated files in the output directory stay *)
+Theorem C18_unrelated_paths_untouched :
+  forall acts fs0 p,
+    ~ In p (write_paths acts) ->
+    (forall q, In q (mkdirs acts) -> ~ is_prefix_or_eq p q) ->
+    apply_run fs0 acts p = fs0 p.
+Proof. exact unrelated_paths_untouched. Qed.
+Print Assumptions C18_unrelated_paths_untouched.
+
+Theorem C18_files_never_deleted :
+  forall acts fs0 p c, fs0 p = Some (FFile c) ->
+    (exists c', apply_run fs0 acts p = Some (FFile c'))
+    /\ (~ In p (write_paths acts) -> apply_run fs0 acts p = Some (FFile c)).
+Proof. exact files_never_deleted. Qed.
+Print Assumptions C18_files_never_deleted.
+
+(* for a directory run: a pre-existing file that is not one of the expected pages keeps its content;
+   an expected page holds exactly what the run wrote for it *)
+Theorem C18_unexpected_file_kept :
+  forall st hdrs docfn excl, ws_out st = true -> all_ok docfn -> excl [] true = false ->
+  forall base top fs0 p c, fs0 p = Some (FFile c) -> ~ In p (expected_paths st excl [] top) ->
+    apply_run fs0 (document st hdrs docfn excl base (KDir top)) p = Some (FFile c).
+Proof. exact dir_run_unexpected_file_kept. Qed.
+Print Assumptions C18_unexpected_file_kept.
+
+Theorem C18_expected_file_content :
+  forall st hdrs docfn excl, ws_out st = true -> all_ok docfn -> excl [] true = false ->
+  forall base top fs0 p, tree_ok top = true -> In p (expected_paths st excl [] top) ->
+    exists c, In (p, c) (writes (document st hdrs docfn excl base (KDir top)))
+              /\ apply_run fs0 (document st hdrs docfn excl base (KDir top)) p = Some (FFile c).
+Proof. exact dir_run_expected_file_content. Qed.
+Print Assumptions C18_expected_file_content.
+
+Theorem C18_no_output_dir_fs_unchanged :
+  forall st hdrs docfn excl, ws_out st = false -> forall base kind fs0 p,
+    apply_run fs0 (document st hdrs docfn excl base kind) p = fs0 p.
+Proof. exact no_output_dir_fs_unchanged. Qed.
+Print Assumptions C18_no_output_dir_fs_unchanged.
